@@ -308,6 +308,117 @@ def run_shard(args):
     return {"name": name, "lines": lines, "viol": viol, "starts": starts}
 
 
+# ---------------------------------------------------------------------------------------------- real binary leg
+
+BB_YAML = """targets:
+  t:
+    input:
+      - paths: [in.txt]
+    output:
+      - paths: [out.txt]
+    build: |
+      echo built > out.txt
+      touch started.flag
+      %s
+"""
+
+BB_FAULTS = {
+    # name: (script tail, action on zinoma, model outcome, model crash)
+    "exit3": ("exit 3", None, "fail", "none"),
+    "kill_self": ("kill -KILL $$", None, "fail", "none"),
+    "term_self": ("kill -TERM $$", None, "fail", "none"),
+    "segv_self": ("kill -SEGV $$", None, "fail", "none"),
+    "exit130": ("exit 130", None, "fail", "none"),
+    "sigint": ("exec sleep 600", "INT", "cancel", "none"),
+    "sigterm": ("exec sleep 600", "TERM", "cancel", "none"),
+    "sigkill": ("exec sleep 600", "KILL", "ok", "script"),
+}
+for _p in CRASHES:
+    if _p != "script":
+        BB_FAULTS["abort@" + _p] = ("true", None, "ok", _p)
+
+
+def bb_history(args):
+    """build; edit; faulty run; plain run; plain run - on the real binary; decisions read from its hook log"""
+    import bb
+    hid, fault = args
+    tail, action, outcome, crash = BB_FAULTS[fault]
+    d = os.path.join(CACHE, "scratch", "bbi_%d_%s" % (os.getpid(), hid))
+    shutil.rmtree(d, ignore_errors=True)
+    os.makedirs(d)
+    model = {"paths": ["in.txt", "out.txt"], "targets": {"t": {"inp": ["in.txt"], "out": ["out.txt"], "hasInput": True}}}
+    lines = [{"e": "hist", "id": hid, "model": model}]
+    mt = [0]
+
+    def write_in(c):
+        mt[0] += 1
+        open(os.path.join(d, "in.txt"), "w").write("content %d\n" % c)
+        os.utime(os.path.join(d, "in.txt"), (1600000000 + mt[0], 1600000000 + mt[0]))
+        lines.append({"e": "write", "k": len(lines), "m": {"p": "in.txt", "c": c, "mt": mt[0]}})
+
+    def run_once(script_tail, act, m_outcome, m_crash, env=None):
+        open(os.path.join(d, "zinoma.yml"), "w").write(BB_YAML % script_tail)
+        flag = os.path.join(d, "started.flag")
+        if os.path.exists(flag):
+            os.unlink(flag)
+        trace = os.path.join(d, "trace.ndjson")
+        if os.path.exists(trace):
+            os.unlink(trace)
+        actions = [(("grep", '"build_spawned"', 0.25), act)] if act else []
+        r = bb.run_zinoma(d, ["t"], trace, timeout=15, actions=actions, env=env)
+        evs = [json.loads(l) for l in open(trace)] if os.path.exists(trace) else []
+        chk = [e for e in evs if e["ev"] == "incr_checked"]
+        decision = "none" if not chk else ("skip" if chk[0].get("skip") else "run")
+        ran = os.path.exists(flag)
+        mt[0] += 1
+        writes = [{"p": "out.txt", "c": 50, "mt": 1000 + mt[0]}] if (decision == "run" and ran) else []
+        # the script runs only past the spawn: aborts before it write nothing
+        result = "hang" if r["timed_out"] else ("panic" if "panicked" in r["err"] and m_crash == "none" else ("completed" if r["status"] == 0 else "failed: exit"))
+        if decision == "skip":
+            result = "skipped"
+        lines.append({"e": "invoke", "k": len(lines), "decision": decision, "result": result,
+                      "m": {"t": "t", "crash": m_crash, "script": {"outcome": m_outcome, "writes": writes, "deletes": []}}})
+        return r
+
+    write_in(1)
+    run_once("true", None, "ok", "none")
+    write_in(2)
+    env = {"ZINOMA_VERIF_CRASH": fault.split("@")[1] + "@t"} if fault.startswith("abort@") else None
+    run_once(tail, action, outcome, crash, env=env)
+    run_once("true", None, "ok", "none")
+    run_once("true", None, "ok", "none")
+    shutil.rmtree(d, ignore_errors=True)
+    return lines
+
+
+def bb_leg(tier, seed, tag):
+    build_traced()
+    faults = sorted(BB_FAULTS)
+    reps = 1 if tier != "thorough" else 4
+    jobs = [("b%d_%s" % (i, f.replace("@", "_")), f) for i in range(reps) for f in faults]
+    with cf.ThreadPoolExecutor(NCPU) as ex:
+        hs = list(ex.map(bb_history, jobs))
+    out = os.path.join(CACHE, "jobs", tag + "_bb.ndjson")
+    flat = [l for h in hs for l in h]
+    with open(out, "w") as f:
+        for l in flat:
+            f.write(json.dumps(l) + "\n")
+    rc, o = tlc("IncrementalObs.tla", "EngineObs.cfg", workers=1, env={"TRACE": out}, timeout=600,
+                java_opts="-Xss1g -Xmx2g -Dtlc2.tool.queue.IStateQueue=StateDeque", metaname="iobs_" + tag + "_bb")
+    if "TRACE-LINES" not in o or "TRACE-NOT-CONSUMED" in o:
+        return {"error": "bb trace validation failed: " + "\n".join(x for x in o.splitlines() if not TLC_NOISE.match(x))[-1500:]}
+    viol = []
+    starts = [i + 1 for i, e in enumerate(flat) if e["e"] == "hist"]
+    for line in o.splitlines():
+        m = VIOL_RE.match(line.strip())
+        if m:
+            ln = int(m.group(2))
+            hi = max(j for j, s_ in enumerate(starts) if s_ <= ln)
+            viol.append({"prop": m.group(1), "sig": m.group(3), "group": "incr:realbin", "case": {"fault": jobs[hi][1], "history": hs[hi]},
+                         "observed": flat[ln - 1], "confirmed": True})
+    return {"viol": viol, "histories": len(hs), "faults": faults}
+
+
 def mc(tier):
     out = {}
     spec_h = tree_hash([os.path.join(SPEC, "Incremental.tla")])
@@ -390,6 +501,13 @@ def suite(tier, seed):
                 res["violations"].append({"prop": v["prop"], "sig": v["sig"], "group": "incr:" + h["template"], "case": h,
                                           "observed": lines[v["line"] - 1], "confirmed": False})
         res["nontrivial"] = {p: len(s) for p, s in seen.items()}
+        b = bb_leg(tier, seed, "i%s%d_%d" % (tier[0], seed, os.getpid()))
+        if "error" in b:
+            res["tool_errors"].append({"job": "incr:realbin", "what": b["error"]})
+        else:
+            res["violations"] += b["viol"]
+            res["realbin"] = {"histories": b["histories"], "faults": b["faults"]}
+            res["traces_validated"] += b["histories"]
         for name, st in res["mc"].items():
             if not st["ok"]:
                 res["tool_errors"].append({"job": "tlc:" + name, "what": "model checking of Incremental.tla failed", "tail": st.get("tail", "")})
@@ -418,7 +536,7 @@ def describe(pid, res):
            "rule": "one evaluation = one generated history (file operations, corruptions, invocations with script outcome and crash "
                    "point) executed on real files through the real loader, resolver and incremental::run; TLC compares every decision "
                    "with Incremental.tla's; non-trivial for %s = distinct histories exercising its antecedent" % pid,
-           "exhaustive": False, "trace_events": res["events"],
+           "exhaustive": False, "trace_events": res["events"], "real_binary_fault_histories": res.get("realbin"),
            "tlc_configurations": {n: {"distinct": st["distinct"], "generated": st["generated"], "wall_s": st["wall_s"]} for n, st in res["mc"].items()}}
     assumptions = ["in-crate crash emulation = dropping the incremental::run future at the hook point (no destructor touches files); "
                    "the real-binary leg uses abort() and SIGKILL",
